@@ -206,14 +206,22 @@ def long_history(n, seed):
     w = World()
     items = []
     for i in range(n):
-        k = (i + seed) % 6
+        k = (i + seed) % 8
+        day = "2020-%02d-%02d" % (1 + (i // 28) % 12, 1 + i % 28)
+        guid = "%08x-0000-4000-8000-%012x" % (i, i)
+        same_text = [("date", day), ("str", day), ("guid", guid), ("str", guid), ("time", "12:%02d:%02d" % (i % 60, i % 59)),
+                     ("str", "12:%02d:%02d" % ((i + 1) % 60, (i + 1) % 59)), ("datetime", day + "T10:00:00Z"), ("str", day + "T10:00:00Z"),
+                     ("str", "7"), ("int", "7"), ("str", "true"), ("str", "null"), ("str", "P1D"), ("duration", "P1D")]
         term = [("cmp", "eq", ident("field_%d" % i), ("lit", "int", str(i))),
                 ("cmp", "in", ("path", ident("p%d" % i), "q%d" % (i % 7)),
                  ("list", (("lit", "str", "v%d" % i), ("lit", "int", str(i % 3)), ("lit", "int", str(i % 3))))),
                 ("call", "f%d" % i, ("ns%d" % (i % 5),), (ident("a%d" % i),)),
                 ("lambda", ident("coll%d" % i), "any", "x", ("cmp", "gt", ("path", ident("x"), "n%d" % i), ("lit", "int", "1"))),
                 ("bool", "and", ("cmp", "eq", ident("g%d" % i), ("lit", "str", "s%d" % i)), ("un", "not", ident("h%d" % i))),
-                ("cmp", "eq", ("call", "tolower", (), (ident("t%d" % i),)), ("lit", "str", "x" * (i % 40)))][k]
+                ("cmp", "eq", ("call", "tolower", (), (ident("t%d" % i),)), ("lit", "str", "x" * (i % 40))),
+                # one text, different literal kinds, in either order of first appearance
+                ("cmp", "in", ident("k%d" % (i % 3)), ("list", tuple(("lit",) + same_text[(i // 8 + j) % len(same_text)] for j in range(3)))),
+                ("cmp", "eq", ident("m"), ("lit",) + same_text[(i // 8) % len(same_text)])][k]
         items.append((printer.render(term), term))
 
     def valid(i, when):
